@@ -27,6 +27,7 @@ def all_cases(tier):
         for C in (1, 2, 3, 4):
             for code in range(C ** N):
                 add("ce=nll(log_softmax)", [(N, C), (N,)], pats=["logits", f"labels:{C}:{code}"])
+                if N >= 2 and code % 2 == 0: add("ce=nll(log_softmax)", [(N, C), (N,)], pats=["scales:1", f"labels:{C}:{code}"])
     for s in S3:
         for tg in ("target01", "target:0.3"):
             add("bce_logits=bce(sigmoid)", [s, s], pats=["logits", tg])
@@ -47,6 +48,7 @@ def all_cases(tier):
         if len(s) >= 1:
             for d in lattice.dims(len(s)):
                 add("log_softmax=log(softmax)", [s], {"dim": d}, pats=["generic"])    # spread <= 5: the log() guard constant 1e-12 stays below tolerance
+                if len(s) >= 2: add("log_softmax=log(softmax)", [s], {"dim": d}, pats=[f"scales:{d}"])   # slices on very different scales, same spread
     B = lattice.shapes(2) + [(2, 1, 3), (1, 3, 2), (3, 2, 1)]
     for s1 in B:
         for s2 in B:
